@@ -156,6 +156,10 @@ def build_kw(case, k):
         kw["elements_to_ignore"] = case["ignore"]
     if case["scale"]:
         kw["error_scaling"] = case["scale"]
+        h_ = int(hashlib.sha1(repr(case["scale"]).encode()).hexdigest(), 16)
+        if h_ % 5 == 0:
+            # the same factors (0, 1/4, 1/2, 3/4, 1: exact in every float type) as numpy scalars or fractions
+            kw["error_scaling_number_type"] = ["float32", "Fraction", "float16", "float64"][(h_ // 5) % 4]
     if case["starts"]:
         kw["additional_starts"] = case["starts"]
     if case["ends"]:
@@ -166,6 +170,8 @@ def build_kw(case, k):
         kw["path_length_ranges"] = case["plr"][0]; kw["path_length_factors"] = case["plr"][1]
     if case.get("lenattr"):
         kw["length_attr"] = "len"
+    if case.get("tpct") is not None and case["cyc"]:
+        kw["trusted_edges_for_safety_percentile"] = case["tpct"]
     return kw
 
 
